@@ -1629,7 +1629,7 @@ def run_render(ck, unproved):
     from . import sudsutil as U  # noqa
     rng = ck.rng
     Plan.ENABLE_DECL_ON_USE = True
-    Plan.ENABLE_ANON_OPTIONAL = PROPOSED_E in ck.known
+    Plan.ENABLE_ANON_OPTIONAL = True
     n_ifaces = 36 if ck.tier == "quick" else 400
     K = 4 if ck.tier == "quick" else 6
     reps = 2 if ck.tier == "quick" else 4
